@@ -89,7 +89,12 @@ echo "end $GROG_TARGET" >> "$VTRACE"`
 	s.Targets = append(s.Targets, hist.Target{Pkg: "p", Name: "x", Command: xCmd, Inputs: []string{"x.in"}, Outputs: []string{"x.out"}, Tags: tags("x"), Timeout: "10m"}) // a timeout that never expires: a plain failure must still be a failure
 	yCmd := traceStart + `
 if [ -e "$VMARK/fail-y-exit" ]; then echo "fail $GROG_TARGET" >> "$VTRACE"; echo "y fails on purpose"; exit 3; fi
-if [ -e "$VMARK/fail-y-timeout" ]; then sleep 30; fi
+if [ -e "$VMARK/fail-y-timeout" ]; then
+  # a polite command: asked to terminate it leaves (partial) outputs behind and exits 0 - exceeding the timeout is a failure all the same
+  sleep 30 &
+  trap 'kill $!; printf partial > y.out; printf partial > y2.out; exit 0' TERM INT HUP
+  wait $!
+fi
 printf 'y2' > y2.out
 if [ -e "$VMARK/fail-y-noout" ]; then rm -f y.out; echo "end $GROG_TARGET" >> "$VTRACE"; exit 0; fi
 printf 'y(%s,%s)' "$(cat x.out)" "$(cat y.in)" > y.out
@@ -129,7 +134,10 @@ if [ ! -e "$VMARK/w-broken" ]; then rm -f "$VMARK/w-destroyed"; fi
 printf 'w' > w.out
 echo "end $GROG_TARGET" >> "$VTRACE"`
 	s.Targets = append(s.Targets, hist.Target{Pkg: "p", Name: "w", Command: wCmd, Inputs: []string{"x.in"}, Outputs: []string{"w.out"},
-		OutputChecks: []hist.Check{{Command: `if [ -e "$VMARK/w-destroyed" ]; then echo 2; else echo 1; fi`, ExpectedOutput: "1"}, {Command: `test ! -e "$VMARK/w-destroyed"`}}})
+		// a passing check of each form precedes / follows the ones that can fail: every check has to be evaluated
+		OutputChecks: []hist.Check{{Command: `true`}, {Command: `echo ok`, ExpectedOutput: "ok"}, {Command: `if [ -e "$VMARK/w-destroyed" ]; then echo 2; else echo 1; fi`, ExpectedOutput: "1"}, {Command: `test ! -e "$VMARK/w-destroyed"`}, {Command: `true`}, {Command: `echo fine`, ExpectedOutput: "fine"}}})
+	// (no check inspects w's own output: checks run before outputs are restored, so such a check fails - and rightly forces
+	// execution - whenever the output is absent from the workspace, which the reference model does not track)
 	return s
 }
 
@@ -824,10 +832,7 @@ func init() {
 		c.R.Assume("the checked condition is an external marker outside the declared inputs/outputs", "timeout mode uses timeout=1s against a 30 s sleep; wall-clock enters only through grog's own timeout handling, never through the oracle")
 		chainCheck("C14", []string{"C14:", "C05:failed-target-not-attempted-again", "C04:build-hangs"}, 5, 6, func(e *chainEngine, thorough bool) {
 			e.universes = []chainState{{}, {Minimal: true}}
-			e.ops = []chainOp{markOp("w-destroyed"), markOp("w-broken"), markOp("fail-y-exit"), markOp("fail-y-noout"), opEditFirst, opBuild}
-			if thorough {
-				e.ops = append(e.ops, markOp("fail-y-timeout"))
-			}
+			e.ops = []chainOp{markOp("w-destroyed"), markOp("w-broken"), markOp("fail-y-exit"), markOp("fail-y-noout"), markOp("fail-y-timeout"), opEditFirst, opBuild}
 		})(c)
 	}
 }
